@@ -39,6 +39,7 @@ def run(ctx):
             ctx.check(bool(rets) and not loose, "C06.WIN", u.where, "every Ready return carries a polled child's payload", site=u.body.span,
                       path=common.fmt_blocks(u.bi, [r[0] for r in loose]))
             racelike.rule_pending_after_scan(ctx, M, u, "C06.WIN")
+            flow.rule_integrity(ctx, u.bi, "C06.WIN", u.where, ("Ready",), "the winner's output")
             with ctx.renamed({"C20.CONT": "C06.SCAN", "C20.COVER": "C06.SCAN"}):
                 c20.rule_cont(ctx, M, u)
                 c20.rule_cover(ctx, M, u)
